@@ -65,7 +65,15 @@ def unit_attempt_field(has_prompt=True):
         spec.assume_inv(it, me)
         it.ghost['pre'] = sm.St(me.snap(), dict(it.ghost))
         it.ghost['field'] = fobj
-        return [me, fobj], {}
+        # the contract is for every call: parameters the function has grown beyond (self, field) are arbitrary, not their defaults
+        import inspect
+        extra = {}
+        for name, prm in list(inspect.signature(fn).parameters.items())[2:]:
+            if isinstance(prm.default, bool):
+                extra[name] = corevc.SV('bool', corevc.fresh(f'param_{name}', z3.BoolSort()))
+            elif prm.default is inspect.Parameter.empty or prm.default is not None:
+                raise sym.Unsupported(f'_attempt_field has a parameter {name} the contract does not know')
+        return [me, fobj] + list(extra.values()), {}
 
     def post(p):
         it = p.interp
